@@ -40,10 +40,10 @@ import (
 	"github.com/projectcalico/calico/verifkit/ev"
 )
 
-// c17KnownRescanDropped is the signature of a finding on the unchanged tree (see final report):
-// RouteTable.resyncIface returns nil when listing an interface's routes fails, so
-// resyncIndividualInterfaces drops the interface from the rescan set and Apply reports success
-// without having looked at the interface.
+// c17KnownRescanDropped names a finding this check made on the original tree (fixed since):
+// RouteTable.resyncIface returned nil when listing an interface's routes failed, so
+// resyncIndividualInterfaces dropped the interface from the rescan set and Apply reported success
+// without having looked at the interface.  TestVerifC17RegressionRescanDropped pins the scenario.
 const c17KnownRescanDropped = "c17-iface-rescan-dropped-after-route-list-failure"
 
 type c17NoopRecorder struct{}
@@ -154,8 +154,6 @@ type c17H struct {
 	resyncRequested    bool     // QueueResync (or a new RouteTable) since the last such edit
 	faultsSinceGood    int
 	sawConflict        bool
-	suspectRescanDrop  bool
-	rec                *ev.Recorder
 
 	ops        []string
 	classes    map[string]bool
@@ -235,9 +233,6 @@ func (h *c17H) desiredDump() string {
 }
 
 func (h *c17H) fail(format string, a ...any) {
-	if h.suspectRescanDrop {
-		format = "[" + c17KnownRescanDropped + ": a route listing failed during a per-interface rescan in an Apply that nevertheless returned nil] " + format
-	}
 	h.t.Fatalf("%s\nconfig: %+v\nops=%v\ndesired:%s\nkernel routes:%s", fmt.Sprintf(format, a...), h.cfg, h.ops, h.desiredDump(), h.kernelDump())
 }
 
@@ -441,20 +436,33 @@ func (h *c17H) apply() error {
 		}
 	}
 	armed := h.dp.FailuresToSimulate&mocknetlink.FailNextLinkByNameNotFound != 0
-	listFaultArmed := h.dp.FailuresToSimulate&mocknetlink.FailNextRouteList != 0
-	fullResyncPending := h.resyncRequested
-	err := h.rt.Apply()
-	h.checkMock()
-	if listFaultArmed && h.dp.FailuresToSimulate&mocknetlink.FailNextRouteList == 0 && err == nil && !fullResyncPending {
-		// The failed listing can only have been a per-interface rescan.
-		if ev.Known(c17KnownRescanDropped) {
-			h.rec.Excluded(c17KnownRescanDropped)
-			h.extDirty = true
-			h.resyncRequested = false
-		} else {
-			h.suspectRescanDrop = true
+	var err error
+	var pv any
+	func() {
+		defer func() { pv = recover() }()
+		err = h.rt.Apply()
+	}()
+	if pv != nil {
+		msg := fmt.Sprint(pv)
+		if e, ok := pv.(interface{ String() (string, error) }); ok {
+			if str, serr := e.String(); serr == nil {
+				msg = str
+			}
 		}
+		// Documented give-up: three connection attempts in a row failed (only injected faults
+		// can cause that here); Felix restarts.
+		if !strings.Contains(msg, "Repeatedly failed to connect to netlink") {
+			panic(pv)
+		}
+		h.checkMock()
+		h.checkForeign("after Apply gave up connecting")
+		h.classes["gave-up-panic"] = true
+		h.ops = append(h.ops, "PANIC")
+		h.dp.FailuresToSimulate = 0
+		h.newRouteTable()
+		return fmt.Errorf("felix gave up: %s", msg)
 	}
+	h.checkMock()
 	if armed && h.dp.FailuresToSimulate&mocknetlink.FailNextLinkByNameNotFound == 0 {
 		// "Link not found" is not a failure but false information (the interface is reported
 		// gone); Felix rightly believes it until a later full resync re-lists the links.
@@ -596,7 +604,7 @@ func TestVerifC17RouteSync(t *testing.T) {
 	defer rec.Write()
 	rapid.Check(t, func(t *rapid.T) {
 		c17TakeMockFailures()
-		h := &c17H{t: t, classes: map[string]bool{}, nextIdx: 10, rec: rec}
+		h := &c17H{t: t, classes: map[string]bool{}, nextIdx: 10}
 		h.cfg = c17Cfg{
 			devProto:       rapid.SampledFrom([]netlink.RouteProtocol{unix.RTPROT_BOOT, unix.RTPROT_BOOT, 80}).Draw(t, "deviceRouteProtocol"),
 			removeExternal: rapid.Bool().Draw(t, "removeExternalRoutes"),
@@ -917,9 +925,9 @@ func TestVerifC17RouteSync(t *testing.T) {
 	})
 }
 
-// TestVerifC17KnownRescanDropped is the deterministic confirmation of finding
-// c17KnownRescanDropped (it FAILS while the finding reproduces).
-func TestVerifC17KnownRescanDropped(t *testing.T) {
+// TestVerifC17RegressionRescanDropped is the plain regression test for finding
+// c17KnownRescanDropped (see above); it fails if the defect comes back.
+func TestVerifC17RegressionRescanDropped(t *testing.T) {
 	ev.Quiet()
 	c17HookGomega()
 	dp := mocknetlink.New()
@@ -948,13 +956,17 @@ func TestVerifC17KnownRescanDropped(t *testing.T) {
 	if f := c17TakeMockFailures(); len(f) > 0 {
 		t.Skipf("HARNESS-GAP: mock assertion failed: %v", f)
 	}
-	if err != nil {
-		return // Apply reported the failure, the caller will retry: the finding no longer reproduces
-	}
-	if _, ok := dp.RouteKeyToRoute[key]; !ok {
+	if _, ok := dp.RouteKeyToRoute[key]; err == nil && !ok {
 		err2 := rt.Apply()
 		_, ok2 := dp.RouteKeyToRoute[key]
 		t.Fatalf("%s: Apply returned nil although the rescan of cali1 failed; desired route 10.0.0.1/32 is missing from the kernel (a second Apply returned %v, route present afterwards: %v)",
 			c17KnownRescanDropped, err2, ok2)
+	}
+	// Apply either repaired the route or reported the failure; in the latter case retrying must converge.
+	for i := 0; i < 3 && err != nil; i++ {
+		err = rt.Apply()
+	}
+	if _, ok := dp.RouteKeyToRoute[key]; err != nil || !ok {
+		t.Fatalf("route 10.0.0.1/32 not restored after retries: err=%v present=%v", err, ok)
 	}
 }
